@@ -28,13 +28,23 @@ Proof.
   vm_compute. reflexivity.
 Qed.
 
-(* finding #24: the first script leaves a fence open (its final state is not clean); appended statements vanish *)
+(* fix 85765d5 (was finding #24): a script that leaves a fence open is rejected whole — alone and with statements appended;
+   its final splitter state is not clean (complete = false), which is exactly the hypothesis of unclosed_fence_rejected *)
 Definition fence_s1 : string := "Y = X" ++ nl_s ++ "```" ++ nl_s ++ "foo = 1".
-Example unclosed_fence_refuted :
-  names_of (parse_model_nocheck fence_s1) = Some [(Some "Y", TEndogenous, Some (IInt 0%Z), Some (IInt 0%Z)); (Some "X", TExogenous, Some (IInt 0%Z), Some (IInt 0%Z))] /\
+Example unclosed_fence_is_rejected :
+  parse_model_nocheck fence_s1 = PErr ParserError /\
+  parse_model_nocheck (fence_s1 ++ nl_s ++ "Z = W") = PErr ParserError /\
   names_of (parse_model_nocheck "Z = W") = Some [(Some "Z", TEndogenous, Some (IInt 0%Z), Some (IInt 0%Z)); (Some "W", TExogenous, Some (IInt 0%Z), Some (IInt 0%Z))] /\
-  parse_model_nocheck (fence_s1 ++ nl_s ++ "Z = W") = parse_model_nocheck fence_s1 /\
-  final_state s0 (model_lines fence_s1) = Some (mkS 0 false ["foo = 1"; "```"]).
+  final_state s0 (model_lines fence_s1) = Some (mkS 0 false ["foo = 1"; "```"]) /\
+  (exists b, map_p parse_equation_M (fst (split_M fence_s1)) = POk b /\ length b = 1).
+Proof. vm_compute. repeat split; try reflexivity. eexists. split; reflexivity. Qed.
+(* closing the fence makes the same text an accepted block, and independence applies again *)
+Example closed_fence_accepted :
+  snd (split_M (fence_s1 ++ nl_s ++ "```")) = None /\ ends_sep (fence_s1 ++ nl_s ++ "```") = false /\
+  names_of (parse_model_nocheck ((fence_s1 ++ nl_s ++ "```") ++ nl_s ++ "Z = W"))
+  = Some [(Some "Y", TEndogenous, Some (IInt 0%Z), Some (IInt 0%Z)); (Some "X", TExogenous, Some (IInt 0%Z), Some (IInt 0%Z));
+          (Some "Z", TEndogenous, Some (IInt 0%Z), Some (IInt 0%Z)); (Some "W", TExogenous, Some (IInt 0%Z), Some (IInt 0%Z));
+          (None, TVerbatim, None, None)].
 Proof. vm_compute. repeat split; reflexivity. Qed.
 
 (* finding #22: blanks inside the LEFT-hand index bracket are rejected *)
@@ -152,3 +162,6 @@ Example ex_cont_layout :
   nrm (whole_toks ex_cont_q) = whole_toks ex_fix_q /\ lneq_terms canon ex_cont_q = lneq_terms canon ex_fix_q /\
   has_nl (denorm_text canon ex_cont_q) = true.
 Proof. vm_compute. repeat split; reflexivity. Qed.
+
+Example ex_accepted : snd (split_M ex_s1) = None /\ snd (split_M ex_s2) = None /\ ex_s1 <> "" /\ ex_s2 <> "" /\ ends_sep ex_s1 = false /\ ends_sep ex_s2 = false.
+Proof. vm_compute. repeat split; try reflexivity; discriminate. Qed.
